@@ -12,7 +12,8 @@ recheck() {
     if [ "$1" = DETECTED ]; then shift; fi
     id=$3
     git -C "$D" checkout -q -- . 2>/dev/null
-    desc=$(/verif/bin/mutgen -dir "$D/$PKG" -apply $id 2>/dev/null) || { echo "ERROR $PKG $id"; continue; }
+    if [ "${FAMILY:-1}" = 2 ]; then desc=$(/verif/bin/mutgen2 -repo "$D" -pkg ./$PKG -apply $id 2>/dev/null) || { echo "ERROR $PKG $id"; continue; }
+    else desc=$(/verif/bin/mutgen -dir "$D/$PKG" -apply $id 2>/dev/null) || { echo "ERROR $PKG $id"; continue; }; fi
     out=$(timeout 120 /verif/bin/goyang-verif -repo "$D" -verif /verif -all -no-evidence 2>&1); rc=$?
     if [ $rc = 0 ]; then echo "MISSED $PKG $id $desc";
     else echo "DETECTED $(echo "$out" | grep -aoE "^[A-Z0-9.]+ \[(violation|undecided)\]|^VACUOUS [A-Z.]+|^BROKEN" | head -1 | tr ' ' '_') $PKG $id $desc"; fi
@@ -20,5 +21,5 @@ recheck() {
   git -C "$D" checkout -q -- . 2>/dev/null
   flock /tmp/gy-st.lock git -C /repo worktree remove --force "$D" >/dev/null 2>&1
 }
-export -f recheck
+export -f recheck; export FAMILY
 seq 0 11 | xargs -P 12 -I{} bash -c "recheck {} $PKG $LOG"
